@@ -187,7 +187,9 @@ PROPS = {
         trusted=ALGO_TRUST,
         level_text='Lean 4 theorem for every program over scratch memory: if the checked run (no read of a cell not written '
                    'by this call, no index out of range) succeeds then the raw run returns the same value for every slab '
-                   'content; instantiated to FuzzyMatchV2 (C05_v2_junk_independent). The driver establishes the hypothesis '
+                   'content; instantiated to FuzzyMatchV2 (C05_v2_junk_independent); ranking the results of any sub-collection of '
+                   'distinct items gives the ranking of all results restricted to it (sorting by compareRanks commutes with '
+                   'restriction, with or without --tac), and renumbering the items monotonically changes no comparison. The driver establishes the hypothesis '
                    'on every generated case and compares raw run = implementation over identical seeded junk.',
         level_note='Partial: "the checked run succeeds for ALL inputs" is established per case, not yet as a theorem. '
                    'Sub-list stability at process level is covered under C04. Known finding: F6.',
